@@ -72,7 +72,7 @@ def expected(tree, cells, labels, gaps, weights):
 
 
 @with_signature(SPEC)
-def c16_score(**kw):
+def c16_score(kw):
     parents = list(kw["shape"])
     ncols, nsyms = kw["ncols"], kw["nsyms"]
     mode = kw["mode"]
